@@ -89,6 +89,10 @@ Definition std_ok (std : option tracker) (tr : tracker) : Prop :=
 Definition names_valid (tr : tracker) : Prop :=
   forall p n, lookup p (p2n tr) = Some n -> valid_name_b n = true.
 
+(* no local name is one of the names bind refuses (the predeclared identifiers) *)
+Definition names_not_pre (pre : list bytes) (tr : tracker) : Prop :=
+  forall p n, lookup p (p2n tr) = Some n -> name_in pre n = false.
+
 (* pathToName only grows and never rebinds *)
 Definition ext (a b : amap) : Prop := forall k v, lookup k a = Some v -> lookup k b = Some v.
 
@@ -105,39 +109,57 @@ Lemma std_ok_empty : forall std, std_ok std empty_tracker.
 Proof. intros std s n p sp _ H. cbn in H. discriminate. Qed.
 Lemma names_valid_empty : names_valid empty_tracker.
 Proof. intros p n H. cbn in H. discriminate. Qed.
+Lemma names_not_pre_empty : forall pre, names_not_pre pre empty_tracker.
+Proof. intros pre p n H. cbn in H. discriminate. Qed.
+
+Lemma name_in_spec : forall pre n, name_in pre n = true <-> In n pre.
+Proof.
+  intros pre n. unfold name_in. rewrite existsb_exists. split.
+  - intros (x & Hin & E). apply bytes_eqb_spec in E. subst. exact Hin.
+  - intros H. exists n. split; [exact H|apply bytes_eqb_refl].
+Qed.
 
 (* ------------------------------------------------------------------ bind *)
 
-Lemma bind_some : forall std tr nm path tr',
-  bind std tr nm path = Some tr' ->
+Lemma bind_some : forall pre std tr nm path tr',
+  bind pre std tr nm path = Some tr' ->
   std_conflict std nm path = false /\ lookup nm (n2p tr) = None /\
   tr' = mk_tracker ((path, nm) :: p2n tr) ((nm, path) :: n2p tr).
 Proof.
-  intros std tr nm path tr' H. unfold bind in H.
+  intros pre std tr nm path tr' H. unfold bind in H.
+  destruct (name_in pre nm); [discriminate|].
   destruct (std_conflict std nm path); [discriminate|].
   destruct (lookup nm (n2p tr)); [discriminate|]. inversion H. auto.
 Qed.
 
-Lemma bind_none : forall std tr nm path,
-  bind std tr nm path = None ->
-  In nm (keys (n2p tr)) \/ exists s, std = Some s /\ In nm (keys (n2p s)).
+(* a successful bind never gives a refused name *)
+Lemma bind_some_not_pre : forall pre std tr nm path tr',
+  bind pre std tr nm path = Some tr' -> name_in pre nm = false.
 Proof.
-  intros std tr nm path H. unfold bind in H.
+  intros pre std tr nm path tr' H. unfold bind in H. destruct (name_in pre nm); [discriminate|reflexivity].
+Qed.
+
+Lemma bind_none : forall pre std tr nm path,
+  bind pre std tr nm path = None ->
+  In nm (keys (n2p tr)) \/ (exists s, std = Some s /\ In nm (keys (n2p s))) \/ In nm pre.
+Proof.
+  intros pre std tr nm path H. unfold bind in H.
+  destruct (name_in pre nm) eqn:EP; [right; right; apply name_in_spec; exact EP|].
   destruct (std_conflict std nm path) eqn:E.
-  - right. unfold std_conflict in E. destruct std as [s|]; [|discriminate].
+  - right. left. unfold std_conflict in E. destruct std as [s|]; [|discriminate].
     exists s. split; [reflexivity|]. destruct (lookup nm (n2p s)) eqn:L; [|discriminate].
     eapply lookup_in_keys; eauto.
   - left. destruct (lookup nm (n2p tr)) eqn:L; [|discriminate]. eapply lookup_in_keys; eauto.
 Qed.
 
 Section Bind.
-  Variables (std : option tracker) (tr tr' : tracker) (nm path : bytes).
+  Variables (pre : list bytes) (std : option tracker) (tr tr' : tracker) (nm path : bytes).
   Hypothesis Hfree : lookup path (p2n tr) = None.
-  Hypothesis Hbind : bind std tr nm path = Some tr'.
+  Hypothesis Hbind : bind pre std tr nm path = Some tr'.
 
   Lemma bind_bij : bij tr -> bij tr'.
   Proof.
-    intros B. destruct (bind_some _ _ _ _ _ Hbind) as (_ & Hn & ->). intros p n. cbn [p2n n2p].
+    intros B. destruct (bind_some _ _ _ _ _ _ Hbind) as (_ & Hn & ->). intros p n. cbn [p2n n2p].
     destruct (bytes_dec p path) as [->|Hp]; destruct (bytes_dec n nm) as [->|Hn'].
     - rewrite !lookup_hd. tauto.
     - rewrite lookup_hd. rewrite lookup_tl by exact Hn'. split.
@@ -151,7 +173,7 @@ Section Bind.
 
   Lemma bind_mirror : mirror tr -> mirror tr'.
   Proof.
-    intros (M & N1 & N2). destruct (bind_some _ _ _ _ _ Hbind) as (_ & Hn & ->). cbn [p2n n2p].
+    intros (M & N1 & N2). destruct (bind_some _ _ _ _ _ _ Hbind) as (_ & Hn & ->). cbn [p2n n2p].
     repeat split.
     - cbn. rewrite M. reflexivity.
     - cbn. constructor; [|exact N1]. apply lookup_none_keys. exact Hfree.
@@ -160,7 +182,7 @@ Section Bind.
 
   Lemma bind_std_ok : std_ok std tr -> std_ok std tr'.
   Proof.
-    intros S. destruct (bind_some _ _ _ _ _ Hbind) as (Hc & Hn & ->).
+    intros S. destruct (bind_some _ _ _ _ _ _ Hbind) as (Hc & Hn & ->).
     intros s n p sp Hs H1 H2. cbn [n2p] in H1.
     destruct (bytes_dec n nm) as [->|Hn'].
     - rewrite lookup_hd in H1. inversion H1; subst p. subst std. unfold std_conflict in Hc.
@@ -170,47 +192,56 @@ Section Bind.
 
   Lemma bind_names_valid : valid_name_b nm = true -> names_valid tr -> names_valid tr'.
   Proof.
-    intros V NV. destruct (bind_some _ _ _ _ _ Hbind) as (_ & _ & ->).
+    intros V NV. destruct (bind_some _ _ _ _ _ _ Hbind) as (_ & _ & ->).
     intros p n H. cbn [p2n] in H. destruct (bytes_dec p path) as [->|Hp].
     - rewrite lookup_hd in H. inversion H; subst. exact V.
     - rewrite lookup_tl in H by exact Hp. eapply NV; eauto.
   Qed.
 
+  Lemma bind_names_not_pre : names_not_pre pre tr -> names_not_pre pre tr'.
+  Proof.
+    intros NP. pose proof (bind_some_not_pre _ _ _ _ _ _ Hbind) as V.
+    destruct (bind_some _ _ _ _ _ _ Hbind) as (_ & _ & ->).
+    intros p n H. cbn [p2n] in H. destruct (bytes_dec p path) as [->|Hp].
+    - rewrite lookup_hd in H. inversion H; subst. exact V.
+    - rewrite lookup_tl in H by exact Hp. eapply NP; eauto.
+  Qed.
+
   Lemma bind_ext : ext (p2n tr) (p2n tr').
   Proof.
-    destruct (bind_some _ _ _ _ _ Hbind) as (_ & _ & ->). intros k v H. cbn [p2n].
+    destruct (bind_some _ _ _ _ _ _ Hbind) as (_ & _ & ->). intros k v H. cbn [p2n].
     destruct (bytes_dec k path) as [->|Hk]; [congruence|]. rewrite lookup_tl by exact Hk. exact H.
   Qed.
 
   Lemma bind_ext_n2p : ext (n2p tr) (n2p tr').
   Proof.
-    destruct (bind_some _ _ _ _ _ Hbind) as (_ & Hn & ->). intros k v H. cbn [n2p].
+    destruct (bind_some _ _ _ _ _ _ Hbind) as (_ & Hn & ->). intros k v H. cbn [n2p].
     destruct (bytes_dec k nm) as [->|Hk]; [congruence|]. rewrite lookup_tl by exact Hk. exact H.
   Qed.
 
   Lemma bind_keys : keys (p2n tr') = path :: keys (p2n tr).
-  Proof. destruct (bind_some _ _ _ _ _ Hbind) as (_ & _ & ->). reflexivity. Qed.
+  Proof. destruct (bind_some _ _ _ _ _ _ Hbind) as (_ & _ & ->). reflexivity. Qed.
 
   Lemma bind_bound : lookup path (p2n tr') = Some nm.
-  Proof. destruct (bind_some _ _ _ _ _ Hbind) as (_ & _ & ->). apply lookup_hd. Qed.
+  Proof. destruct (bind_some _ _ _ _ _ _ Hbind) as (_ & _ & ->). apply lookup_hd. Qed.
 End Bind.
 
 (* ------------------------------------------------------------------ how a tracker evolves *)
 
 (* one successful bind of a path that had no name; on the repaired code the name is valid *)
-Inductive grow (fixed : bool) (std : option tracker) : tracker -> tracker -> Prop :=
+Inductive grow (fixed : bool) (pre : list bytes) (std : option tracker) : tracker -> tracker -> Prop :=
 | grow_bind : forall tr path nm tr',
-    lookup path (p2n tr) = None -> bind std tr nm path = Some tr' ->
-    (fixed = true -> valid_name_b nm = true) -> grow fixed std tr tr'.
+    lookup path (p2n tr) = None -> bind pre std tr nm path = Some tr' ->
+    (fixed = true -> valid_name_b nm = true) -> grow fixed pre std tr tr'.
 
-Inductive reach (fixed : bool) (std : option tracker) : tracker -> tracker -> Prop :=
-| reach_refl : forall tr, reach fixed std tr tr
-| reach_step : forall tr tr1 tr2, grow fixed std tr tr1 -> reach fixed std tr1 tr2 -> reach fixed std tr tr2.
+Inductive reach (fixed : bool) (pre : list bytes) (std : option tracker) : tracker -> tracker -> Prop :=
+| reach_refl : forall tr, reach fixed pre std tr tr
+| reach_step : forall tr tr1 tr2, grow fixed pre std tr tr1 -> reach fixed pre std tr1 tr2 -> reach fixed pre std tr tr2.
 
-Lemma reach_trans : forall fixed std a b c, reach fixed std a b -> reach fixed std b c -> reach fixed std a c.
-Proof. intros fixed std a b c H. induction H; intros H2; [exact H2|]. econstructor; eauto. Qed.
+Lemma reach_trans : forall fixed pre std a b c, reach fixed pre std a b -> reach fixed pre std b c -> reach fixed pre std a c.
+Proof. intros fixed pre std a b c H. induction H; intros H2; [exact H2|]. econstructor; eauto. Qed.
 
-Lemma reach_one : forall fixed std a b, grow fixed std a b -> reach fixed std a b.
+Lemma reach_one : forall fixed pre std a b, grow fixed pre std a b -> reach fixed pre std a b.
 Proof. intros. econstructor; [eassumption|constructor]. Qed.
 
 Record inv (std : option tracker) (tr : tracker) : Prop := mk_inv {
@@ -222,35 +253,43 @@ Record inv (std : option tracker) (tr : tracker) : Prop := mk_inv {
 Lemma inv_empty : forall std, inv std empty_tracker.
 Proof. intros. constructor; [apply bij_empty|apply mirror_empty|apply std_ok_empty]. Qed.
 
-Lemma grow_inv : forall fixed std a b, grow fixed std a b -> inv std a -> inv std b.
+Lemma grow_inv : forall fixed pre std a b, grow fixed pre std a b -> inv std a -> inv std b.
 Proof.
-  intros fixed std a b [tr path nm tr' Hf Hb _] [B M S]. constructor.
+  intros fixed pre std a b [tr path nm tr' Hf Hb _] [B M S]. constructor.
   - eapply bind_bij; eauto.
   - eapply bind_mirror; eauto.
   - eapply bind_std_ok; eauto.
 Qed.
 
-Lemma reach_inv : forall fixed std a b, reach fixed std a b -> inv std a -> inv std b.
-Proof. intros fixed std a b H. induction H; intros I; [exact I|]. apply IHreach. eapply grow_inv; eauto. Qed.
+Lemma reach_inv : forall fixed pre std a b, reach fixed pre std a b -> inv std a -> inv std b.
+Proof. intros fixed pre std a b H. induction H; intros I; [exact I|]. apply IHreach. eapply grow_inv; eauto. Qed.
 
-Lemma grow_valid : forall std a b, grow true std a b -> names_valid a -> names_valid b.
+Lemma grow_valid : forall pre std a b, grow true pre std a b -> names_valid a -> names_valid b.
 Proof.
-  intros std a b [tr path nm tr' Hf Hb V] NV. eapply bind_names_valid; eauto.
+  intros pre std a b [tr path nm tr' Hf Hb V] NV. eapply bind_names_valid; eauto.
 Qed.
 
-Lemma reach_valid : forall std a b, reach true std a b -> names_valid a -> names_valid b.
-Proof. intros std a b H. induction H; intros I; [exact I|]. apply IHreach. eapply grow_valid; eauto. Qed.
+Lemma reach_valid : forall pre std a b, reach true pre std a b -> names_valid a -> names_valid b.
+Proof. intros pre std a b H. induction H; intros I; [exact I|]. apply IHreach. eapply grow_valid; eauto. Qed.
 
-Lemma grow_ext : forall fixed std a b, grow fixed std a b -> ext (p2n a) (p2n b) /\ ext (n2p a) (n2p b).
+Lemma grow_not_pre : forall fixed pre std a b, grow fixed pre std a b -> names_not_pre pre a -> names_not_pre pre b.
 Proof.
-  intros fixed std a b [tr path nm tr' Hf Hb _]. split; [eapply bind_ext|eapply bind_ext_n2p]; eauto.
+  intros fixed pre std a b [tr path nm tr' Hf Hb _] NP. eapply bind_names_not_pre; eauto.
 Qed.
 
-Lemma reach_ext : forall fixed std a b, reach fixed std a b -> ext (p2n a) (p2n b) /\ ext (n2p a) (n2p b).
+Lemma reach_not_pre : forall fixed pre std a b, reach fixed pre std a b -> names_not_pre pre a -> names_not_pre pre b.
+Proof. intros fixed pre std a b H. induction H; intros I; [exact I|]. apply IHreach. eapply grow_not_pre; eauto. Qed.
+
+Lemma grow_ext : forall fixed pre std a b, grow fixed pre std a b -> ext (p2n a) (p2n b) /\ ext (n2p a) (n2p b).
 Proof.
-  intros fixed std a b H. induction H.
+  intros fixed pre std a b [tr path nm tr' Hf Hb _]. split; [eapply bind_ext|eapply bind_ext_n2p]; eauto.
+Qed.
+
+Lemma reach_ext : forall fixed pre std a b, reach fixed pre std a b -> ext (p2n a) (p2n b) /\ ext (n2p a) (n2p b).
+Proof.
+  intros fixed pre std a b H. induction H.
   - split; apply ext_refl.
-  - destruct (grow_ext _ _ _ _ H) as [E1 E2]. destruct IHreach as [F1 F2].
+  - destruct (grow_ext _ _ _ _ _ H) as [E1 E2]. destruct IHreach as [F1 F2].
     split; eapply ext_trans; eauto.
 Qed.
 
@@ -394,17 +433,17 @@ Proof.
     destruct (shortcut (bs "apis") (s :: s2 :: rest)); apply to_local_name_spec.
 Qed.
 
-Lemma try_cands_spec : forall fixed std tr path segs ns last,
-  exists r l, try_cands fixed std tr path segs ns last = Ok (r, l) /\
+Lemma try_cands_spec : forall fixed pre std tr path segs ns last,
+  exists r l, try_cands fixed pre std tr path segs ns last = Ok (r, l) /\
     (fixed = true -> valid_name_b last = true \/ ns <> [] -> valid_name_b l = true) /\
-    (forall tr', r = Some tr' -> bind std tr l path = Some tr').
+    (forall tr', r = Some tr' -> bind pre std tr l path = Some tr').
 Proof.
-  intros fixed std tr path segs ns. induction ns as [|n rest IH]; intros last; cbn [try_cands].
+  intros fixed pre std tr path segs ns. induction ns as [|n rest IH]; intros last; cbn [try_cands].
   - exists None, last. split; [reflexivity|]. split.
     + intros _ [H|H]; [exact H|congruence].
     + discriminate.
   - destruct (local_name_spec fixed segs n) as (nm & -> & V). cbn [bind Bytes.bind].
-    destruct (Tracker.bind std tr nm path) as [tr1|] eqn:B.
+    destruct (Tracker.bind pre std tr nm path) as [tr1|] eqn:B.
     + exists (Some tr1), nm. split; [reflexivity|]. split; [auto|]. intros tr' E. inversion E; subst. exact B.
     + destruct (IH nm) as (r & l & E & V' & Hb). exists r, l. split; [exact E|]. split; [|exact Hb].
       intros F _. apply V'; auto.
@@ -418,70 +457,70 @@ Qed.
 
 (* ------------------------------------------------------------------ the numbered fallback *)
 
-Lemma number_loop_result : forall fuel k std tr base path,
-  (exists tr' j, number_loop fuel k std tr base path = Ok tr' /\
-                 Tracker.bind std tr (base ++ itoa j) path = Some tr')
-  \/ (number_loop fuel k std tr base path = OutOfFuel /\
-      forall j, k <= j < k + fuel -> Tracker.bind std tr (base ++ itoa j) path = None).
+Lemma number_loop_result : forall fuel k pre std tr base path,
+  (exists tr' j, number_loop fuel k pre std tr base path = Ok tr' /\
+                 Tracker.bind pre std tr (base ++ itoa j) path = Some tr')
+  \/ (number_loop fuel k pre std tr base path = OutOfFuel /\
+      forall j, k <= j < k + fuel -> Tracker.bind pre std tr (base ++ itoa j) path = None).
 Proof.
-  induction fuel as [|f IH]; intros k std tr base path; cbn [number_loop].
+  induction fuel as [|f IH]; intros k pre std tr base path; cbn [number_loop].
   - right. split; [reflexivity|]. intros j H. lia.
-  - destruct (Tracker.bind std tr (base ++ itoa k) path) as [tr1|] eqn:B.
+  - destruct (Tracker.bind pre std tr (base ++ itoa k) path) as [tr1|] eqn:B.
     + left. eauto.
-    + destruct (IH (S k) std tr base path) as [H|[H1 H2]]; [left; exact H|].
+    + destruct (IH (S k) pre std tr base path) as [H|[H1 H2]]; [left; exact H|].
       right. split; [exact H1|]. intros j Hj.
       destruct (PeanoNat.Nat.eq_dec j k) as [->|Hne]; [exact B|]. apply H2. lia.
 Qed.
 
-Definition taken (std : option tracker) (tr : tracker) : list bytes :=
-  keys (n2p tr) ++ match std with Some s => keys (n2p s) | None => [] end.
+Definition taken (pre : list bytes) (std : option tracker) (tr : tracker) : list bytes :=
+  keys (n2p tr) ++ match std with Some s => keys (n2p s) | None => [] end ++ pre.
 
-Lemma taken_length : forall std tr, length (taken std tr) = length (n2p tr) + std_size std.
+Lemma taken_length : forall pre std tr, length (taken pre std tr) = length (n2p tr) + std_size std + length pre.
 Proof.
-  intros std tr. unfold taken, keys, std_size. rewrite app_length, !map_length.
-  destruct std; cbn; [rewrite map_length|]; reflexivity.
+  intros pre std tr. unfold taken, keys, std_size. rewrite !app_length, !map_length.
+  destruct std; cbn; [rewrite map_length|]; lia.
 Qed.
 
 (* pigeonhole: the names base2, base3, ... are pairwise distinct and only finitely many names are
-   taken or reserved, so the fuel [add] supplies always suffices *)
-Lemma number_loop_ok : forall fuel k std tr base path,
-  length (n2p tr) + std_size std < fuel ->
-  exists tr' j, number_loop fuel k std tr base path = Ok tr' /\
-                Tracker.bind std tr (base ++ itoa j) path = Some tr'.
+   taken, reserved or predeclared, so the fuel [add] supplies always suffices *)
+Lemma number_loop_ok : forall fuel k pre std tr base path,
+  length (n2p tr) + std_size std + length pre < fuel ->
+  exists tr' j, number_loop fuel k pre std tr base path = Ok tr' /\
+                Tracker.bind pre std tr (base ++ itoa j) path = Some tr'.
 Proof.
-  intros fuel k std tr base path Hlen.
-  destruct (number_loop_result fuel k std tr base path) as [H|[_ Hall]]; [exact H|]. exfalso.
+  intros fuel k pre std tr base path Hlen.
+  destruct (number_loop_result fuel k pre std tr base path) as [H|[_ Hall]]; [exact H|]. exfalso.
   set (l := map (fun j => base ++ itoa j) (seq k fuel)).
   assert (ND : NoDup l).
   { apply FinFun.Injective_map_NoDup; [|apply seq_NoDup].
     intros a b E. apply app_inv_head in E. apply itoa_inj. exact E. }
-  assert (I : incl l (taken std tr)).
+  assert (I : incl l (taken pre std tr)).
   { intros x Hx. unfold l in Hx. apply in_map_iff in Hx. destruct Hx as (j & <- & Hj).
     apply in_seq in Hj. specialize (Hall j Hj). apply bind_none in Hall. unfold taken.
-    apply in_or_app. destruct Hall as [H|(s & -> & H)]; auto. }
+    apply in_or_app. destruct Hall as [H|[(s & -> & H)|H]]; [left; exact H|right; apply in_or_app; auto ..]. }
   pose proof (NoDup_incl_length ND I) as L. unfold l in L.
   rewrite map_length, seq_length, taken_length in L. lia.
 Qed.
 
 (* ------------------------------------------------------------------ add *)
 
-Lemma add_spec : forall fixed std tr path,
-  exists tr', add fixed std tr path = Ok tr' /\
+Lemma add_spec : forall fixed pre std tr path,
+  exists tr', add fixed pre std tr path = Ok tr' /\
     (((exists n, lookup path (p2n tr) = Some n) /\ tr' = tr)
      \/ (lookup path (p2n tr) = None /\
-         exists nm, Tracker.bind std tr nm path = Some tr' /\ (fixed = true -> valid_name_b nm = true))
+         exists nm, Tracker.bind pre std tr nm path = Some tr' /\ (fixed = true -> valid_name_b nm = true))
      \/ (fixed = false /\ lookup path (p2n tr) = None /\ tr' = tr)).
 Proof.
-  intros fixed std tr path. unfold add. destruct (lookup path (p2n tr)) as [n|] eqn:L.
+  intros fixed pre std tr path. unfold add. destruct (lookup path (p2n tr)) as [n|] eqn:L.
   - exists tr. split; [reflexivity|]. left. eauto.
   - set (segs := split_slash [] path).
-    destruct (try_cands_spec fixed std tr path segs (seq 1 (length segs)) []) as (r & l & -> & V & Hb).
+    destruct (try_cands_spec fixed pre std tr path segs (seq 1 (length segs)) []) as (r & l & -> & V & Hb).
     cbn [Bytes.bind]. destruct r as [tr1|].
     + exists tr1. split; [reflexivity|]. right. left. split; [reflexivity|]. exists l. split; [auto|].
       intros F. apply V; [exact F|]. right. pose proof (split_slash_nonempty path []) as NE.
       fold segs in NE. destruct segs; [congruence|discriminate].
     + destruct fixed.
-      * destruct (number_loop_ok (S (length (n2p tr) + std_size std)) 2 std tr l path) as (tr1 & j & E & B); [lia|].
+      * destruct (number_loop_ok (S (length (n2p tr) + std_size std + length pre)) 2 pre std tr l path) as (tr1 & j & E & B); [lia|].
         exists tr1. split; [exact E|]. right. left. split; [reflexivity|].
         exists (l ++ itoa j). split; [exact B|]. intros _. apply valid_name_numbered. apply V; [reflexivity|].
         right. pose proof (split_slash_nonempty path []) as NE.
@@ -489,50 +528,50 @@ Proof.
       * exists tr. split; [reflexivity|]. right. right. auto.
 Qed.
 
-Lemma add_reach : forall fixed std tr path tr', add fixed std tr path = Ok tr' -> reach fixed std tr tr'.
+Lemma add_reach : forall fixed pre std tr path tr', add fixed pre std tr path = Ok tr' -> reach fixed pre std tr tr'.
 Proof.
-  intros fixed std tr path tr' H. destruct (add_spec fixed std tr path) as (tr1 & E & C).
+  intros fixed pre std tr path tr' H. destruct (add_spec fixed pre std tr path) as (tr1 & E & C).
   rewrite E in H. inversion H; subst tr1. clear H E.
   destruct C as [[_ ->]|[(L & nm & B & V)|(_ & _ & ->)]]; try constructor.
   apply reach_one. econstructor; eauto.
 Qed.
 
 (* the repaired add always leaves the path bound, and binds nothing else *)
-Lemma add_fixed_bound : forall std tr path tr', add true std tr path = Ok tr' ->
+Lemma add_fixed_bound : forall pre std tr path tr', add true pre std tr path = Ok tr' ->
   (exists n, lookup path (p2n tr') = Some n) /\
   (forall p, In p (keys (p2n tr')) <-> p = path \/ In p (keys (p2n tr))).
 Proof.
-  intros std tr path tr' H. destruct (add_spec true std tr path) as (tr1 & E & C).
+  intros pre std tr path tr' H. destruct (add_spec true pre std tr path) as (tr1 & E & C).
   rewrite E in H. inversion H; subst tr1. clear H E.
   destruct C as [[[n L] ->]|[(L & nm & B & V)|(F & _)]]; [| |discriminate].
   - split; [eauto|]. intros p. split; [auto|]. intros [->|H]; [|exact H]. eapply lookup_in_keys; eauto.
   - split.
     + exists nm. eapply bind_bound; eauto.
-    + intros p. rewrite (bind_keys _ _ _ _ _ B). cbn. split; intros [H|H]; auto.
+    + intros p. rewrite (bind_keys _ _ _ _ _ _ B). cbn. split; intros [H|H]; auto.
 Qed.
 
-Lemma add_total : forall fixed std tr path, exists tr', add fixed std tr path = Ok tr'.
-Proof. intros. destruct (add_spec fixed std tr path) as (tr' & E & _). eauto. Qed.
+Lemma add_total : forall fixed pre std tr path, exists tr', add fixed pre std tr path = Ok tr'.
+Proof. intros. destruct (add_spec fixed pre std tr path) as (tr' & E & _). eauto. Qed.
 
 (* asking for the same package again changes nothing *)
-Lemma add_idempotent : forall std tr path tr',
-  add true std tr path = Ok tr' -> add true std tr' path = Ok tr'.
+Lemma add_idempotent : forall pre std tr path tr',
+  add true pre std tr path = Ok tr' -> add true pre std tr' path = Ok tr'.
 Proof.
-  intros std tr path tr' H. destruct (add_fixed_bound _ _ _ _ H) as [[n L] _].
+  intros pre std tr path tr' H. destruct (add_fixed_bound _ _ _ _ _ H) as [[n L] _].
   unfold add. rewrite L. reflexivity.
 Qed.
 
 (* ------------------------------------------------------------------ rawNamer *)
 
-Lemma walk_args_total : forall fixed std self args tr,
-  exists tr' txt, walk_args fixed std self tr args = Ok (tr', txt) /\ reach fixed std tr tr'.
+Lemma walk_args_total : forall fixed pre std self args tr,
+  exists tr' txt, walk_args fixed pre std self tr args = Ok (tr', txt) /\ reach fixed pre std tr tr'.
 Proof.
-  intros fixed std self. induction args as [|[p lit] rest IH]; intros tr; cbn [walk_args].
+  intros fixed pre std self. induction args as [|[p lit] rest IH]; intros tr; cbn [walk_args].
   - exists tr, []. split; [reflexivity|constructor].
   - destruct (is_nil p); [|destruct (bytes_eqb p self)].
     + destruct (IH tr) as (tr' & txt & -> & R). cbn. eauto.
     + destruct (IH tr) as (tr' & txt & -> & R). cbn. eauto.
-    + destruct (add_total fixed std tr p) as [tr1 E]. rewrite E. cbn [Bytes.bind].
+    + destruct (add_total fixed pre std tr p) as [tr1 E]. rewrite E. cbn [Bytes.bind].
       destruct (IH tr1) as (tr' & txt & -> & R). cbn. do 2 eexists. split; [reflexivity|].
       eapply reach_trans; [eapply add_reach; eauto|exact R].
 Qed.
@@ -543,177 +582,177 @@ Proof. intros k v m H. unfold lookup_or_empty. rewrite H. reflexivity. Qed.
 Lemma is_nil_false : forall (A : Type) (l : list A), l <> [] -> is_nil l = false.
 Proof. intros A [|x l] H; [congruence|reflexivity]. Qed.
 
-Lemma walk_args_fixed : forall std self args tr tr' txt,
-  walk_args true std self tr args = Ok (tr', txt) ->
+Lemma walk_args_fixed : forall pre std self args tr tr' txt,
+  walk_args true pre std self tr args = Ok (tr', txt) ->
   (forall p, In p (keys (p2n tr')) <-> In p (filter (foreign self) (map fst args)) \/ In p (keys (p2n tr))) /\
   (names_valid tr -> forall tbl, ext (p2n tr') tbl -> print_args self tbl args = Some txt).
 Proof.
-  intros std self. induction args as [|[p lit] rest IH]; intros tr tr' txt H; cbn [walk_args] in H.
+  intros pre std self. induction args as [|[p lit] rest IH]; intros tr tr' txt H; cbn [walk_args] in H.
   - inversion H; subst. split; [cbn; tauto|]. reflexivity.
   - cbn [map fst filter print_args]. unfold foreign at 1.
     destruct (is_nil p) eqn:En; [|destruct (bytes_eqb p self) eqn:Es]; cbn [negb andb].
-    + destruct (walk_args true std self tr rest) as [[tr1 t1]| |] eqn:W; cbn in H; try discriminate.
+    + destruct (walk_args true pre std self tr rest) as [[tr1 t1]| |] eqn:W; cbn in H; try discriminate.
       inversion H; subst. destruct (IH _ _ _ W) as [K T]. split; [exact K|].
       intros NV tbl E. rewrite (T NV tbl E). reflexivity.
-    + destruct (walk_args true std self tr rest) as [[tr1 t1]| |] eqn:W; cbn in H; try discriminate.
+    + destruct (walk_args true pre std self tr rest) as [[tr1 t1]| |] eqn:W; cbn in H; try discriminate.
       inversion H; subst. destruct (IH _ _ _ W) as [K T]. split; [exact K|].
       intros NV tbl E. rewrite (T NV tbl E). unfold qualifier. rewrite Es. reflexivity.
-    + destruct (add true std tr p) as [tr1| |] eqn:A; cbn [Bytes.bind] in H; try discriminate.
-      destruct (walk_args true std self tr1 rest) as [[tr2 t2]| |] eqn:W; cbn in H; try discriminate.
+    + destruct (add true pre std tr p) as [tr1| |] eqn:A; cbn [Bytes.bind] in H; try discriminate.
+      destruct (walk_args true pre std self tr1 rest) as [[tr2 t2]| |] eqn:W; cbn in H; try discriminate.
       inversion H; subst tr' txt. clear H.
-      destruct (IH _ _ _ W) as [K T]. destruct (add_fixed_bound _ _ _ _ A) as [[n L] KA]. split.
+      destruct (IH _ _ _ W) as [K T]. destruct (add_fixed_bound _ _ _ _ _ A) as [[n L] KA]. split.
       * intros q. rewrite K, KA. cbn [In]. split; intros Hq; intuition auto.
       * intros NV tbl E.
         assert (NV1 : names_valid tr1) by (eapply reach_valid; [eapply add_reach; eauto|exact NV]).
         rewrite (T NV1 tbl E).
-        assert (R2 : reach true std tr1 tr2) by (destruct (walk_args_total true std self rest tr1) as (a & b & E2 & R); rewrite W in E2; inversion E2; subst; exact R).
-        destruct (reach_ext _ _ _ _ R2) as [X _].
+        assert (R2 : reach true pre std tr1 tr2) by (destruct (walk_args_total true pre std self rest tr1) as (a & b & E2 & R); rewrite W in E2; inversion E2; subst; exact R).
+        destruct (reach_ext _ _ _ _ _ R2) as [X _].
         unfold qualifier. rewrite Es. rewrite (E _ _ (X _ _ L)).
         rewrite (lookup_or_empty_some _ _ _ L).
         rewrite (is_nil_false _ n (valid_name_nonempty _ (NV1 _ _ L))).
         rewrite <- !app_assoc. reflexivity.
 Qed.
 
-Lemma name_ref_total : forall fixed std self tr r,
-  exists tr' txt, name_ref fixed std self tr r = Ok (tr', txt) /\ reach fixed std tr tr'.
+Lemma name_ref_total : forall fixed pre std self tr r,
+  exists tr' txt, name_ref fixed pre std self tr r = Ok (tr', txt) /\ reach fixed pre std tr tr'.
 Proof.
-  intros fixed std self tr r. unfold name_ref.
-  destruct (walk_args_total fixed std self (r_args r) tr) as (tr1 & a & -> & R1). cbn [Bytes.bind].
+  intros fixed pre std self tr r. unfold name_ref.
+  destruct (walk_args_total fixed pre std self (r_args r) tr) as (tr1 & a & -> & R1). cbn [Bytes.bind].
   destruct (bytes_eqb (r_path r) self).
   - eauto.
-  - destruct (add_total fixed std tr1 (r_path r)) as [tr2 E]. rewrite E. cbn [Bytes.bind].
+  - destruct (add_total fixed pre std tr1 (r_path r)) as [tr2 E]. rewrite E. cbn [Bytes.bind].
     do 2 eexists. split; [reflexivity|]. eapply reach_trans; [exact R1|eapply add_reach; eauto].
 Qed.
 
-Lemma name_ref_reach : forall fixed std self tr r tr' txt,
-  name_ref fixed std self tr r = Ok (tr', txt) -> reach fixed std tr tr'.
+Lemma name_ref_reach : forall fixed pre std self tr r tr' txt,
+  name_ref fixed pre std self tr r = Ok (tr', txt) -> reach fixed pre std tr tr'.
 Proof.
-  intros fixed std self tr r tr' txt H. destruct (name_ref_total fixed std self tr r) as (a & b & E & R).
+  intros fixed pre std self tr r tr' txt H. destruct (name_ref_total fixed pre std self tr r) as (a & b & E & R).
   rewrite H in E. inversion E; subst. exact R.
 Qed.
 
-Lemma name_ref_fixed : forall std self tr r tr' txt,
-  name_ref true std self tr r = Ok (tr', txt) ->
+Lemma name_ref_fixed : forall pre std self tr r tr' txt,
+  name_ref true pre std self tr r = Ok (tr', txt) ->
   (forall p, In p (keys (p2n tr')) <-> In p (ref_paths self r) \/ In p (keys (p2n tr))) /\
   (names_valid tr -> forall tbl, ext (p2n tr') tbl -> print_ref self tbl r = Some txt).
 Proof.
-  intros std self tr r tr' txt H. unfold name_ref in H.
-  destruct (walk_args true std self tr (r_args r)) as [[tr1 a]| |] eqn:W; cbn [Bytes.bind] in H; try discriminate.
-  destruct (walk_args_fixed _ _ _ _ _ _ W) as [K T].
-  assert (R1 : reach true std tr tr1).
-  { destruct (walk_args_total true std self (r_args r) tr) as (x & y & E & R). rewrite W in E. inversion E; subst. exact R. }
+  intros pre std self tr r tr' txt H. unfold name_ref in H.
+  destruct (walk_args true pre std self tr (r_args r)) as [[tr1 a]| |] eqn:W; cbn [Bytes.bind] in H; try discriminate.
+  destruct (walk_args_fixed _ _ _ _ _ _ _ W) as [K T].
+  assert (R1 : reach true pre std tr tr1).
+  { destruct (walk_args_total true pre std self (r_args r) tr) as (x & y & E & R). rewrite W in E. inversion E; subst. exact R. }
   unfold ref_paths, print_ref. destruct (bytes_eqb (r_path r) self) eqn:Es.
   - inversion H; subst tr' txt. clear H. split.
     + intros p. rewrite K, app_nil_r. tauto.
     + intros NV tbl E. rewrite (T NV tbl E). unfold qualifier. rewrite Es. cbn [andb app].
       unfold tparams_text. reflexivity.
-  - destruct (add true std tr1 (r_path r)) as [tr2| |] eqn:A; cbn [Bytes.bind] in H; try discriminate.
-    inversion H; subst tr' txt. clear H. destruct (add_fixed_bound _ _ _ _ A) as [[n L] KA]. split.
+  - destruct (add true pre std tr1 (r_path r)) as [tr2| |] eqn:A; cbn [Bytes.bind] in H; try discriminate.
+    inversion H; subst tr' txt. clear H. destruct (add_fixed_bound _ _ _ _ _ A) as [[n L] KA]. split.
     + intros p. rewrite KA, K, in_app_iff. cbn [In]. intuition auto.
     + intros NV tbl E.
       assert (NV1 : names_valid tr1) by (eapply reach_valid; eauto).
-      destruct (reach_ext _ _ _ _ (add_reach _ _ _ _ _ A)) as [X _].
+      destruct (reach_ext _ _ _ _ _ (add_reach _ _ _ _ _ _ A)) as [X _].
       rewrite (T NV tbl (ext_trans _ _ _ X E)).
       unfold qualifier. rewrite Es. rewrite (E _ _ L). cbn [andb].
       rewrite (lookup_or_empty_some _ _ _ L). unfold tparams_text.
       rewrite <- app_assoc. reflexivity.
 Qed.
 
-Lemma render_items_total : forall fixed std self its tr,
-  exists tr' txt, render_items fixed std self tr its = Ok (tr', txt) /\ reach fixed std tr tr'.
+Lemma render_items_total : forall fixed pre std self its tr,
+  exists tr' txt, render_items fixed pre std self tr its = Ok (tr', txt) /\ reach fixed pre std tr tr'.
 Proof.
-  intros fixed std self. induction its as [|[b|r] rest IH]; intros tr; cbn [render_items].
+  intros fixed pre std self. induction its as [|[b|r] rest IH]; intros tr; cbn [render_items].
   - exists tr, []. split; [reflexivity|constructor].
   - destruct (IH tr) as (tr' & txt & -> & R). cbn. eauto.
-  - destruct (name_ref_total fixed std self tr r) as (tr1 & t & -> & R1). cbn [Bytes.bind].
+  - destruct (name_ref_total fixed pre std self tr r) as (tr1 & t & -> & R1). cbn [Bytes.bind].
     destruct (IH tr1) as (tr' & txt & -> & R). cbn. do 2 eexists. split; [reflexivity|].
     eapply reach_trans; eauto.
 Qed.
 
-Lemma render_items_fixed : forall std self its tr tr' txt,
-  render_items true std self tr its = Ok (tr', txt) ->
+Lemma render_items_fixed : forall pre std self its tr tr' txt,
+  render_items true pre std self tr its = Ok (tr', txt) ->
   (forall p, In p (keys (p2n tr')) <-> In p (flat_map (item_paths self) its) \/ In p (keys (p2n tr))) /\
   (names_valid tr -> forall tbl, ext (p2n tr') tbl -> print_items self tbl its = Some txt).
 Proof.
-  intros std self. induction its as [|[b|r] rest IH]; intros tr tr' txt H; cbn [render_items] in H.
+  intros pre std self. induction its as [|[b|r] rest IH]; intros tr tr' txt H; cbn [render_items] in H.
   - inversion H; subst. split; [cbn; tauto|]. reflexivity.
-  - destruct (render_items true std self tr rest) as [[tr1 t1]| |] eqn:W; cbn in H; try discriminate.
+  - destruct (render_items true pre std self tr rest) as [[tr1 t1]| |] eqn:W; cbn in H; try discriminate.
     inversion H; subst. destruct (IH _ _ _ W) as [K T]. split; [exact K|].
     intros NV tbl E. cbn [print_items]. rewrite (T NV tbl E). reflexivity.
-  - destruct (name_ref true std self tr r) as [[tr1 t1]| |] eqn:N; cbn [Bytes.bind] in H; try discriminate.
-    destruct (render_items true std self tr1 rest) as [[tr2 t2]| |] eqn:W; cbn in H; try discriminate.
+  - destruct (name_ref true pre std self tr r) as [[tr1 t1]| |] eqn:N; cbn [Bytes.bind] in H; try discriminate.
+    destruct (render_items true pre std self tr1 rest) as [[tr2 t2]| |] eqn:W; cbn in H; try discriminate.
     inversion H; subst tr' txt. clear H.
-    destruct (IH _ _ _ W) as [K T]. destruct (name_ref_fixed _ _ _ _ _ _ N) as [KN TN]. split.
+    destruct (IH _ _ _ W) as [K T]. destruct (name_ref_fixed _ _ _ _ _ _ _ N) as [KN TN]. split.
     + intros p. rewrite K, KN. cbn [flat_map item_paths]. rewrite in_app_iff. tauto.
     + intros NV tbl E. cbn [print_items].
       assert (NV1 : names_valid tr1) by (eapply reach_valid; [eapply name_ref_reach; eauto|exact NV]).
-      assert (R2 : reach true std tr1 tr2).
-      { destruct (render_items_total true std self rest tr1) as (x & y & E2 & R). rewrite W in E2. inversion E2; subst. exact R. }
-      destruct (reach_ext _ _ _ _ R2) as [X _].
+      assert (R2 : reach true pre std tr1 tr2).
+      { destruct (render_items_total true pre std self rest tr1) as (x & y & E2 & R). rewrite W in E2. inversion E2; subst. exact R. }
+      destruct (reach_ext _ _ _ _ _ R2) as [X _].
       rewrite (TN NV tbl (ext_trans _ _ _ X E)), (T NV1 tbl E). reflexivity.
 Qed.
 
-Lemma step_total : forall fixed std self tr o,
-  exists tr' txt, step fixed std self tr o = Ok (tr', txt) /\ reach fixed std tr tr'.
+Lemma step_total : forall fixed pre std self tr o,
+  exists tr' txt, step fixed pre std self tr o = Ok (tr', txt) /\ reach fixed pre std tr tr'.
 Proof.
-  intros fixed std self tr [p|its]; cbn [step].
-  - destruct (add_total fixed std tr p) as [tr1 E]. rewrite E. cbn. do 2 eexists. split; [reflexivity|].
+  intros fixed pre std self tr [p|its]; cbn [step].
+  - destruct (add_total fixed pre std tr p) as [tr1 E]. rewrite E. cbn. do 2 eexists. split; [reflexivity|].
     eapply add_reach; eauto.
   - apply render_items_total.
 Qed.
 
-Lemma step_reach : forall fixed std self tr o tr' txt,
-  step fixed std self tr o = Ok (tr', txt) -> reach fixed std tr tr'.
+Lemma step_reach : forall fixed pre std self tr o tr' txt,
+  step fixed pre std self tr o = Ok (tr', txt) -> reach fixed pre std tr tr'.
 Proof.
-  intros fixed std self tr o tr' txt H. destruct (step_total fixed std self tr o) as (a & b & E & R).
+  intros fixed pre std self tr o tr' txt H. destruct (step_total fixed pre std self tr o) as (a & b & E & R).
   rewrite H in E. inversion E; subst. exact R.
 Qed.
 
-Lemma step_fixed : forall std self tr o tr' txt,
-  step true std self tr o = Ok (tr', txt) ->
+Lemma step_fixed : forall pre std self tr o tr' txt,
+  step true pre std self tr o = Ok (tr', txt) ->
   (forall p, In p (keys (p2n tr')) <-> In p (op_paths self o) \/ In p (keys (p2n tr))) /\
   (names_valid tr -> forall tbl, ext (p2n tr') tbl -> print_op self tbl o = Some txt).
 Proof.
-  intros std self tr [p|its] tr' txt H; cbn [step] in H.
-  - destruct (add true std tr p) as [tr1| |] eqn:A; cbn in H; try discriminate. inversion H; subst.
-    destruct (add_fixed_bound _ _ _ _ A) as [_ KA]. split; [|reflexivity].
+  intros pre std self tr [p|its] tr' txt H; cbn [step] in H.
+  - destruct (add true pre std tr p) as [tr1| |] eqn:A; cbn in H; try discriminate. inversion H; subst.
+    destruct (add_fixed_bound _ _ _ _ _ A) as [_ KA]. split; [|reflexivity].
     intros q. rewrite KA. cbn. intuition (subst; auto).
   - eapply render_items_fixed. exact H.
 Qed.
 
 (* ------------------------------------------------------------------ histories *)
 
-Lemma run_from_total : forall fixed std self ops tr,
-  exists tr' texts snaps, run_from fixed std self tr ops = Ok (tr', texts, snaps) /\ reach fixed std tr tr'.
+Lemma run_from_total : forall fixed pre std self ops tr,
+  exists tr' texts snaps, run_from fixed pre std self tr ops = Ok (tr', texts, snaps) /\ reach fixed pre std tr tr'.
 Proof.
-  intros fixed std self. induction ops as [|o rest IH]; intros tr; cbn [run_from].
+  intros fixed pre std self. induction ops as [|o rest IH]; intros tr; cbn [run_from].
   - exists tr, [], []. split; [reflexivity|constructor].
-  - destruct (step_total fixed std self tr o) as (tr1 & t & -> & R1). cbn [Bytes.bind].
+  - destruct (step_total fixed pre std self tr o) as (tr1 & t & -> & R1). cbn [Bytes.bind].
     destruct (IH tr1) as (tr' & ts & sn & -> & R). cbn. do 3 eexists. split; [reflexivity|].
     eapply reach_trans; eauto.
 Qed.
 
-Lemma run_from_reach : forall fixed std self ops tr tr' texts snaps,
-  run_from fixed std self tr ops = Ok (tr', texts, snaps) -> reach fixed std tr tr'.
+Lemma run_from_reach : forall fixed pre std self ops tr tr' texts snaps,
+  run_from fixed pre std self tr ops = Ok (tr', texts, snaps) -> reach fixed pre std tr tr'.
 Proof.
-  intros fixed std self ops tr tr' texts snaps H.
-  destruct (run_from_total fixed std self ops tr) as (a & b & c & E & R).
+  intros fixed pre std self ops tr tr' texts snaps H.
+  destruct (run_from_total fixed pre std self ops tr) as (a & b & c & E & R).
   rewrite H in E. inversion E; subst. exact R.
 Qed.
 
-Lemma run_from_fixed : forall std self ops tr tr' texts snaps,
-  run_from true std self tr ops = Ok (tr', texts, snaps) ->
+Lemma run_from_fixed : forall pre std self ops tr tr' texts snaps,
+  run_from true pre std self tr ops = Ok (tr', texts, snaps) ->
   (forall p, In p (keys (p2n tr')) <-> In p (history_paths self ops) \/ In p (keys (p2n tr))) /\
   (names_valid tr -> map (print_op self (p2n tr')) ops = map Some texts) /\
   Forall (fun s => ext s (p2n tr')) snaps.
 Proof.
-  intros std self. induction ops as [|o rest IH]; intros tr tr' texts snaps H; cbn [run_from] in H.
+  intros pre std self. induction ops as [|o rest IH]; intros tr tr' texts snaps H; cbn [run_from] in H.
   - inversion H; subst. split; [cbn; tauto|]. split; [reflexivity|constructor].
-  - destruct (step true std self tr o) as [[tr1 t]| |] eqn:S; cbn [Bytes.bind] in H; try discriminate.
-    destruct (run_from true std self tr1 rest) as [[[tr2 ts] sn]| |] eqn:W; cbn in H; try discriminate.
+  - destruct (step true pre std self tr o) as [[tr1 t]| |] eqn:S; cbn [Bytes.bind] in H; try discriminate.
+    destruct (run_from true pre std self tr1 rest) as [[[tr2 ts] sn]| |] eqn:W; cbn in H; try discriminate.
     inversion H; subst tr' texts snaps. clear H.
-    destruct (IH _ _ _ _ W) as (K & T & F). destruct (step_fixed _ _ _ _ _ _ S) as [KS TS].
-    destruct (reach_ext _ _ _ _ (run_from_reach _ _ _ _ _ _ _ _ W)) as [X _].
+    destruct (IH _ _ _ _ W) as (K & T & F). destruct (step_fixed _ _ _ _ _ _ _ S) as [KS TS].
+    destruct (reach_ext _ _ _ _ _ (run_from_reach _ _ _ _ _ _ _ _ _ W)) as [X _].
     split; [|split].
     + intros p. rewrite K, KS. unfold history_paths. cbn [flat_map]. rewrite in_app_iff. tauto.
     + intros NV. cbn [map].
@@ -722,30 +761,30 @@ Proof.
     + constructor; [exact X|exact F].
 Qed.
 
-Lemma run_from_app : forall fixed std self ops1 ops2 tr,
-  run_from fixed std self tr (ops1 ++ ops2) =
-  (let! (tr1, t1, s1) := run_from fixed std self tr ops1 in
-   let! (tr2, t2, s2) := run_from fixed std self tr1 ops2 in
+Lemma run_from_app : forall fixed pre std self ops1 ops2 tr,
+  run_from fixed pre std self tr (ops1 ++ ops2) =
+  (let! (tr1, t1, s1) := run_from fixed pre std self tr ops1 in
+   let! (tr2, t2, s2) := run_from fixed pre std self tr1 ops2 in
    Ok (tr2, t1 ++ t2, s1 ++ s2)).
 Proof.
-  intros fixed std self. induction ops1 as [|o rest IH]; intros ops2 tr; cbn [app run_from].
-  - cbn. destruct (run_from fixed std self tr ops2) as [[[a b] c]| |]; reflexivity.
-  - destruct (step fixed std self tr o) as [[tr1 t]| |]; cbn [Bytes.bind]; try reflexivity.
-    rewrite IH. destruct (run_from fixed std self tr1 rest) as [[[a b] c]| |]; cbn [Bytes.bind]; try reflexivity.
-    destruct (run_from fixed std self a ops2) as [[[a2 b2] c2]| |]; reflexivity.
+  intros fixed pre std self. induction ops1 as [|o rest IH]; intros ops2 tr; cbn [app run_from].
+  - cbn. destruct (run_from fixed pre std self tr ops2) as [[[a b] c]| |]; reflexivity.
+  - destruct (step fixed pre std self tr o) as [[tr1 t]| |]; cbn [Bytes.bind]; try reflexivity.
+    rewrite IH. destruct (run_from fixed pre std self tr1 rest) as [[[a b] c]| |]; cbn [Bytes.bind]; try reflexivity.
+    destruct (run_from fixed pre std self a ops2) as [[[a2 b2] c2]| |]; reflexivity.
 Qed.
 
-Lemma add_all_as_run : forall fixed std self ps tr,
-  add_all fixed std tr ps =
-  match run_from fixed std self tr (map OAdd ps) with
+Lemma add_all_as_run : forall fixed pre std self ps tr,
+  add_all fixed pre std tr ps =
+  match run_from fixed pre std self tr (map OAdd ps) with
   | Ok (tr', _, _) => Ok tr'
   | Panic => Panic
   | OutOfFuel => OutOfFuel
   end.
 Proof.
-  intros fixed std self. induction ps as [|p rest IH]; intros tr; cbn [add_all map run_from step]; [reflexivity|].
-  destruct (add fixed std tr p) as [tr1| |]; cbn [Bytes.bind]; try reflexivity.
-  rewrite IH. destruct (run_from fixed std self tr1 (map OAdd rest)) as [[[a b] c]| |]; reflexivity.
+  intros fixed pre std self. induction ps as [|p rest IH]; intros tr; cbn [add_all map run_from step]; [reflexivity|].
+  destruct (add fixed pre std tr p) as [tr1| |]; cbn [Bytes.bind]; try reflexivity.
+  rewrite IH. destruct (run_from fixed pre std self tr1 (map OAdd rest)) as [[[a b] c]| |]; reflexivity.
 Qed.
 
 (* ------------------------------------------------------------------ writeImports *)
@@ -794,23 +833,24 @@ Qed.
 (* ------------------------------------------------------------------ the property, per clause *)
 
 Section Final.
+  Variable pre : list bytes.         (* the names bind refuses: ANY list *)
   Variable std : option tracker.       (* the reserved-name table: ANY table *)
   Variable self : bytes.
 
-  Lemma run_total : forall fixed ops, exists tr texts snaps, run fixed std self ops = Ok (tr, texts, snaps).
+  Lemma run_total : forall fixed ops, exists tr texts snaps, run fixed pre std self ops = Ok (tr, texts, snaps).
   Proof.
-    intros fixed ops. destruct (run_from_total fixed std self ops empty_tracker) as (a & b & c & E & _).
+    intros fixed ops. destruct (run_from_total fixed pre std self ops empty_tracker) as (a & b & c & E & _).
     unfold run. eauto.
   Qed.
 
   Lemma run_inv : forall fixed ops tr texts snaps,
-    run fixed std self ops = Ok (tr, texts, snaps) -> inv std tr.
+    run fixed pre std self ops = Ok (tr, texts, snaps) -> inv std tr.
   Proof.
     intros fixed ops tr texts snaps H. eapply reach_inv; [eapply run_from_reach; exact H|apply inv_empty].
   Qed.
 
   Lemma run_bijection : forall fixed ops tr texts snaps,
-    run fixed std self ops = Ok (tr, texts, snaps) ->
+    run fixed pre std self ops = Ok (tr, texts, snaps) ->
     (forall p n, lookup p (p2n tr) = Some n <-> lookup n (n2p tr) = Some p) /\
     (forall p1 p2 n, lookup p1 (p2n tr) = Some n -> lookup p2 (p2n tr) = Some n -> p1 = p2) /\
     NoDup (keys (p2n tr)) /\ NoDup (vals (p2n tr)).
@@ -822,7 +862,7 @@ Section Final.
   Qed.
 
   Lemma run_std_reserved : forall fixed ops tr texts snaps s,
-    std = Some s -> run fixed std self ops = Ok (tr, texts, snaps) ->
+    std = Some s -> run fixed pre std self ops = Ok (tr, texts, snaps) ->
     forall p n sp, lookup p (p2n tr) = Some n -> lookup n (n2p s) = Some sp -> p = sp.
   Proof.
     intros fixed ops tr texts snaps s Hs H p n sp H1 H2. destruct (run_inv _ _ _ _ _ H) as [B _ S].
@@ -830,46 +870,56 @@ Section Final.
   Qed.
 
   Lemma run_stable : forall fixed ops1 ops2 tr2 texts snaps,
-    run fixed std self (ops1 ++ ops2) = Ok (tr2, texts, snaps) ->
+    run fixed pre std self (ops1 ++ ops2) = Ok (tr2, texts, snaps) ->
     exists tr1 t1 s1 t2 s2,
-      run fixed std self ops1 = Ok (tr1, t1, s1) /\ texts = t1 ++ t2 /\ snaps = s1 ++ s2 /\
+      run fixed pre std self ops1 = Ok (tr1, t1, s1) /\ texts = t1 ++ t2 /\ snaps = s1 ++ s2 /\
       forall p n, lookup p (p2n tr1) = Some n -> lookup p (p2n tr2) = Some n.
   Proof.
     intros fixed ops1 ops2 tr2 texts snaps H. unfold run in *. rewrite run_from_app in H.
-    destruct (run_from fixed std self empty_tracker ops1) as [[[tr1 t1] s1]| |] eqn:E1; cbn [Bytes.bind] in H; try discriminate.
-    destruct (run_from fixed std self tr1 ops2) as [[[tr2' t2] s2]| |] eqn:E2; cbn [Bytes.bind] in H; try discriminate.
+    destruct (run_from fixed pre std self empty_tracker ops1) as [[[tr1 t1] s1]| |] eqn:E1; cbn [Bytes.bind] in H; try discriminate.
+    destruct (run_from fixed pre std self tr1 ops2) as [[[tr2' t2] s2]| |] eqn:E2; cbn [Bytes.bind] in H; try discriminate.
     inversion H; subst. exists tr1, t1, s1, t2, s2. repeat split.
-    destruct (reach_ext _ _ _ _ (run_from_reach _ _ _ _ _ _ _ _ E2)) as [X _]. exact X.
+    destruct (reach_ext _ _ _ _ _ (run_from_reach _ _ _ _ _ _ _ _ _ E2)) as [X _]. exact X.
   Qed.
 
   Lemma run_valid_names : forall ops tr texts snaps,
-    run true std self ops = Ok (tr, texts, snaps) ->
+    run true pre std self ops = Ok (tr, texts, snaps) ->
     forall p n, lookup p (p2n tr) = Some n -> valid_name_b n = true.
   Proof.
     intros ops tr texts snaps H. eapply reach_valid; [eapply run_from_reach; exact H|apply names_valid_empty].
   Qed.
 
+  (* both code versions: whatever bind refuses outright is never a local name *)
+  Lemma run_not_predeclared : forall fixed ops tr texts snaps,
+    run fixed pre std self ops = Ok (tr, texts, snaps) ->
+    forall p n, lookup p (p2n tr) = Some n -> ~ In n pre.
+  Proof.
+    intros fixed ops tr texts snaps H p n L Hin. apply name_in_spec in Hin.
+    pose proof (reach_not_pre _ _ _ _ _ (run_from_reach _ _ _ _ _ _ _ _ _ H) (names_not_pre_empty pre) p n L) as E.
+    congruence.
+  Qed.
+
   Lemma run_exact_imports : forall ops tr texts snaps,
-    run true std self ops = Ok (tr, texts, snaps) ->
+    run true pre std self ops = Ok (tr, texts, snaps) ->
     forall p, In p (keys (p2n tr)) <-> In p (history_paths self ops).
   Proof.
-    intros ops tr texts snaps H p. destruct (run_from_fixed _ _ _ _ _ _ _ H) as (K & _ & _).
+    intros ops tr texts snaps H p. destruct (run_from_fixed _ _ _ _ _ _ _ _ H) as (K & _ & _).
     rewrite K. cbn. tauto.
   Qed.
 
   Lemma run_texts : forall ops tr texts snaps,
-    run true std self ops = Ok (tr, texts, snaps) ->
+    run true pre std self ops = Ok (tr, texts, snaps) ->
     map (print_op self (p2n tr)) ops = map Some texts.
   Proof.
-    intros ops tr texts snaps H. destruct (run_from_fixed _ _ _ _ _ _ _ H) as (_ & T & _).
+    intros ops tr texts snaps H. destruct (run_from_fixed _ _ _ _ _ _ _ _ H) as (_ & T & _).
     apply T. apply names_valid_empty.
   Qed.
 
   Lemma run_snapshots : forall ops tr texts snaps,
-    run true std self ops = Ok (tr, texts, snaps) ->
+    run true pre std self ops = Ok (tr, texts, snaps) ->
     Forall (fun s => forall p n, lookup p s = Some n -> lookup p (p2n tr) = Some n) snaps.
   Proof.
-    intros ops tr texts snaps H. destruct (run_from_fixed _ _ _ _ _ _ _ H) as (_ & _ & F). exact F.
+    intros ops tr texts snaps H. destruct (run_from_fixed _ _ _ _ _ _ _ _ H) as (_ & _ & F). exact F.
   Qed.
 End Final.
 
@@ -894,18 +944,25 @@ Definition h_refs (paths : list bytes) : list op :=
 
 Lemma old_keyword_name :
   exists tr texts snaps,
-    run false None (bs "m") (h_refs [bs "github.com/json-iterator/go"]) = Ok (tr, texts, snaps) /\
+    run false [] None (bs "m") (h_refs [bs "github.com/json-iterator/go"]) = Ok (tr, texts, snaps) /\
     lookup (bs "github.com/json-iterator/go") (p2n tr) = Some (bs "go") /\ texts = [bs "go.T"].
 Proof. do 3 eexists. vm_compute. repeat split. Qed.
 
 Lemma old_digit_name :
   exists tr texts snaps,
-    run false None (bs "m") (h_refs [bs "example.com/2fa"]) = Ok (tr, texts, snaps) /\
+    run false [] None (bs "m") (h_refs [bs "example.com/2fa"]) = Ok (tr, texts, snaps) /\
     lookup (bs "example.com/2fa") (p2n tr) = Some (bs "2fa").
+Proof. do 3 eexists. vm_compute. repeat split. Qed.
+
+(* the code before fixes/C03-3 (fixes 1 and 2 in, nothing refused outright) *)
+Lemma old_predeclared_name :
+  exists tr texts snaps,
+    run true [] None (bs "m") (h_refs [bs "example.com/x/string"]) = Ok (tr, texts, snaps) /\
+    lookup (bs "example.com/x/string") (p2n tr) = Some (bs "string") /\ texts = [bs "string.T"].
 Proof. do 3 eexists. vm_compute. repeat split. Qed.
 
 Lemma old_candidates_exhausted :
   exists tr texts snaps,
-    run false None (bs "m") (h_refs [bs "a.com/foo-bar"; bs "a.com/foo_bar"; bs "a.com/foobar"]) = Ok (tr, texts, snaps) /\
+    run false [] None (bs "m") (h_refs [bs "a.com/foo-bar"; bs "a.com/foo_bar"; bs "a.com/foobar"]) = Ok (tr, texts, snaps) /\
     lookup (bs "a.com/foobar") (p2n tr) = None /\ nth 2 texts [] = bs ".T".
 Proof. do 3 eexists. vm_compute. repeat split. Qed.
